@@ -92,6 +92,7 @@ InitRun(c, viol, stats, run) ==
        cd |-> Get(c, "check_distance", 2),               \* SyncTestSession: check distance
        glitchFrame |-> Get(c, "glitch_frame", -1),
        glitchK |-> Get(c, "glitch_k", 0),       \* the game's k-th simulation of this frame deviates
+       glitchTransient |-> Get(c, "glitch_transient", FALSE),  \* ... only in the checksum of the next save (not carried on)
        isSync |-> [p \in 0..N-1 |-> pc[p].kind = "synctest"],     \* forged packets are injected: silence clocks are not exact   \* both sides poll at least every keep-alive interval   \* every fault of this run ends before the timeout
        marked |-> FALSE, minProgress |-> 0,
        cf |-> [p \in 0..N-1 |-> Get(pc[p], "corrupt_from", 1000000000)],  \* game of p is corrupt from this frame
@@ -239,7 +240,7 @@ ReqStep(gg, p, r, acc, rq) ==
                nh0 == Chain(pe.gh, ins)
                nh1 == IF f >= gg.cf[p] THEN (nh0 + 17) % HashMod ELSE nh0   \* the harness' deliberate divergence
                gl  == f = gg.glitchFrame /\ pe.gcount + 1 = gg.glitchK       \* ... and deliberate glitch
-               nh  == IF gl THEN (nh1 + 1) % HashMod ELSE nh1
+               nh  == IF gl /\ ~gg.glitchTransient THEN (nh1 + 1) % HashMod ELSE nh1
                changed == f \in DOMAIN pe.sim /\ \E i \in 1..Min2(Len(ins), Len(pe.sim[f])) : pe.sim[f][i][1] # ins[i][1]
            IN [acc EXCEPT
                  !.vs = @ \o AdvViol(gg, p, pe, f, ins, r),
